@@ -150,9 +150,7 @@ Print Assumptions C06_header_roundtrip.
    carried out whatever the earlier ones returned (with what a failing call leaves behind) *)
 
 (* facts: read_conn hands the buffer's dimensions to the lexicon also when reading failed half-way, leaves the limits of a
-   user dictionary alone; read_lexicon clears `resolved`; compile validates unconditionally; in read_conn and read_lexicon the two kinds of data source
-   (a file path, bytes in memory) are one call each whose value reaches the same continuation, so that what follows -- the
-   update of the limits, the propagation of the error -- does not depend on the kind (build_unrecognised = []) *)
+   user dictionary alone; read_lexicon clears `resolved`; compile validates unconditionally (build_unrecognised = []) *)
 Fact C06_history_facts_ok :
   BuildGuards.conn_limits_follow_on_error = true /\ BuildGuards.conn_limits_fixed_for_user = true
   /\ BuildGuards.read_lexicon_clears_resolved = true /\ BuildGuards.build_unrecognised = [].
